@@ -777,6 +777,12 @@ func evalPredicate(node *jparse.PredicateNode, data reflect.Value, env *environm
 		}
 	}
 
+	// (A keep-array marker before an order-by that is filtered
+	// here belongs to the path as a whole: x[]^(k)[0].)
+	if items != undefined && keepsArrays(node.Expr) {
+		return items, nil
+	}
+
 	return normalizeArray(items), nil
 }
 
@@ -945,6 +951,8 @@ func keepsArrays(node jparse.Node) bool {
 	case *jparse.PathNode:
 		return node.KeepArrays || len(node.Steps) > 0 && keepsArrays(node.Steps[0])
 	case *jparse.SortNode:
+		return keepsArrays(node.Expr)
+	case *jparse.PredicateNode:
 		return keepsArrays(node.Expr)
 	default:
 		return false
